@@ -44,6 +44,8 @@ def plan(tier, seed):
             specs.append({'kind': 'writer_section', 'fmt': fmt, 'exists': exists})
             specs.append({'kind': 'failpoints', 'fmt': fmt, 'exists': exists, 'random': 30 if tier == 'quick' else 400,
                           'entry': 'file'})
+    specs.append({'kind': 'writer_section', 'fmt': 'p8', 'exists': True, 'hardlink': True})
+    specs.append({'kind': 'writer_section', 'fmt': 'png', 'exists': True, 'hardlink': True})
     specs.append({'kind': 'stream', 'fmt': 'p8', 'exists': True, 'readonly': True})
     specs.append({'kind': 'stream', 'fmt': 'png', 'exists': True, 'readonly': True})
     specs.append({'kind': 'internal'})
@@ -74,8 +76,9 @@ NAME_COUNTER = [0]
 class Dest:
     """A destination path with its before/after snapshot oracle."""
 
-    def __init__(self, ctx, rng, fmt, exists, root, readonly=False, empty=False):
+    def __init__(self, ctx, rng, fmt, exists, root, readonly=False, empty=False, hardlink=False):
         self.ctx = ctx
+        self.hardlink = hardlink
         self.readonly = readonly
         self.empty = empty
         self.dir = os.path.join(root, 'dest')
@@ -96,6 +99,12 @@ class Dest:
                 data = rc.write_p8png(self.regions, rc.raw_code_area(self.code), 8, base_rows=rows)
             with open(self.path, 'wb') as fh:
                 fh.write(b'' if empty else data)
+        if exists and hardlink:
+            # the file has a second name elsewhere (a cart hard-linked into the PICO-8 carts folder): it is still the file already there
+            ldir = os.path.join(root, 'links')
+            os.makedirs(ldir, exist_ok=True)
+            self.link = os.path.join(ldir, 'link%d' % NAME_COUNTER[0] + ('.p8' if fmt == 'p8' else '.p8.png'))
+            os.link(self.path, self.link)
         if exists and readonly:
             os.chmod(self.path, 0o444)      # a destination the user marked read-only is still "the file already there"
         with open(os.path.join(self.dir, 'bystander.txt'), 'wb') as fh:
@@ -163,6 +172,8 @@ def fmt_class(fmt):
 def attempt(ctx, dest, call, case, injector, fired=None):
     """Run call() under an armed injector; judge the destination if the fault was delivered: the call raised, or the
     injector reports that it fired (an entry point may catch the exception and return an error code instead)."""
+    if getattr(dest, 'hardlink', False):
+        case['hardlink'] = True
     ctx.case(repr(sorted((k, v) for k, v in case.items() if k != 'what')))
     root = os.path.dirname(dest.dir)
     try:
@@ -221,7 +232,9 @@ def run_stream(ctx, rng, spec, root):
 def run_writer_section(ctx, rng, spec, root):
     from pico8.game import file as p8file
     from pico8.lua import lua
-    dest = Dest(ctx, rng, spec['fmt'], spec['exists'], root)
+    dest = Dest(ctx, rng, spec['fmt'], spec['exists'], root, hardlink=spec.get('hardlink', False))
+    if spec.get('hardlink'):
+        ctx.feature('hard_linked_destination')
     g = new_game(rng)
     nlines = len(list(g.lua.to_lines()))
     for base in (lua.LuaEchoWriter, lua.LuaMinifyTokenWriter, lua.LuaFormatterWriter, lua.LuaASTEchoWriter):
@@ -472,6 +485,16 @@ def run_internal(ctx, rng, spec, root):
             attempt(ctx, dest, lambda: tool.main(QUIET + ['build', dest.path, '--lua', bad]),
                     {'injector': 'build_unparseable_source', 'fmt': fmt, 'exists': exists, 'readonly': readonly},
                     'build_unparseable_source', fired=always)
+            # ... or from source carts that do not load (their code has a syntax error; the file is not a cart)
+            for bad_name, bad_data in (('broken_code.p8', rc.write_p8(carts.random_regions(rng, 'uniform')[0], b'x = = 1\nfunction f(\n', version=8)),
+                                       ('not_a_cart.p8', b'just some notes\n')):
+                badcart = os.path.join(root, bad_name)
+                with open(badcart, 'wb') as fh:
+                    fh.write(bad_data)
+                for secname in ('gfx', 'lua', 'sfx'):
+                    attempt(ctx, dest, lambda: tool.main(QUIET + ['build', dest.path, '--' + secname, badcart]),
+                            {'injector': 'build_source_cart_does_not_load', 'source': bad_name, 'section': secname, 'fmt': fmt, 'exists': exists,
+                             'readonly': readonly}, 'build_source_cart_does_not_load', fired=always)
             req = os.path.join(root, 'req_main.lua')
             with open(req, 'wb') as fh:
                 fh.write(b'x=1\nrequire("module_that_is_not_there")\n')
@@ -774,7 +797,7 @@ def replay(case, ctx):
             run_faultfree(ctx, rng, {}, root, only=(case['code_kind'], fmt, case['cmd'], case['spelling'], exists))
             return
         entry = case.get('entry', 'file')
-        dest = Dest(ctx, rng, fmt, exists, root, empty=case.get('empty', False))
+        dest = Dest(ctx, rng, fmt, exists, root, empty=case.get('empty', False), hardlink=case.get('hardlink', False))
         g = new_game(rng)
         call = (lambda: p8file.to_file(g, dest.path)) if entry == 'file' else cli_call(entry, dest, root)
         if inj == 'stream':
@@ -809,7 +832,7 @@ def gates(m, tier):
             missed.append('%s never driven' % k)
     for inj in ('stream', 'lua_writer', 'section', 'png_encoder', 'failpoint', 'unparseable_output', 'oversize_code', 'missing_names_file',
                 'build_unparseable_source', 'build_missing_require', 'unparseable_own_tokens', 'explicit_label_then_failure',
-                'batch_one_cart_fails', 'cli_lua_writer', 'cli_unparseable_output'):
+                'batch_one_cart_fails', 'cli_lua_writer', 'cli_unparseable_output', 'build_source_cart_does_not_load'):
         if mon.get('faults_delivered:' + inj, 0) < 1:
             missed.append('no fault delivered by injector %s' % inj)
     for inj in ('stream', 'lua_writer', 'section', 'failpoint'):
@@ -835,6 +858,8 @@ def gates(m, tier):
                        ['faultfree_cmd:' + c for c in FF_COMMANDS] + ['faultfree_dest_exists', 'faultfree_dest_absent']) if f.get(k, 0) < 10]
     if low or mon.get('faultfree_calls', 0) < 200:
         missed.append('fault-free calls on unusual carts / destination spellings: %d (under-driven: %s)' % (mon.get('faultfree_calls', 0), low))
+    if f.get('hard_linked_destination', 0) < 2:
+        missed.append('hard-linked destinations: %d' % f.get('hard_linked_destination', 0))
     if f.get('cli_luafmt_stream_index', 0) < 5 or f.get('cli_build_stream_index', 0) < 5:
         missed.append('CLI overwrite paths under-driven')
     return missed
